@@ -408,6 +408,7 @@ def _await_descriptor_upload(tor_protocol, onion, progress, await_all_uploads):
     attempted_uploads = set()
     confirmed_uploads = set()
     failed_uploads = set()
+    pending_uploads = set()  # attempts that have not reported back yet
     uploaded = defer.Deferred()
     await_all = False if await_all_uploads is None else await_all_uploads
 
@@ -444,6 +445,9 @@ def _await_descriptor_upload(tor_protocol, onion, progress, await_all_uploads):
         if subtype == 'UPLOAD':
             if hostname_matches('{}.onion'.format(args[1])):
                 attempted_uploads.add(args[3])
+                # Tor may retry a directory: the new attempt is
+                # outstanding whatever the earlier one reported
+                pending_uploads.add(args[3])
                 translate_progress(
                     "wait_descriptor",
                     "Upload to {} started".format(args[3])
@@ -459,6 +463,7 @@ def _await_descriptor_upload(tor_protocol, onion, progress, await_all_uploads):
             # (i.e. instead of matching to "attempted_uploads")
             if args[3] in attempted_uploads:
                 confirmed_uploads.add(args[3])
+                pending_uploads.discard(args[3])
                 log.msg("Uploaded '{}' to '{}'".format(args[1], args[3]))
                 translate_progress(
                     "wait_descriptor",
@@ -466,7 +471,7 @@ def _await_descriptor_upload(tor_protocol, onion, progress, await_all_uploads):
                 )
                 if not uploaded.called:
                     if await_all:
-                        if attempted_uploads <= (failed_uploads | confirmed_uploads):
+                        if not pending_uploads:
                             uploaded.callback(onion)
                     else:
                         uploaded.callback(onion)
@@ -474,20 +479,20 @@ def _await_descriptor_upload(tor_protocol, onion, progress, await_all_uploads):
         elif subtype == 'FAILED':
             if hostname_matches('{}.onion'.format(args[1])):
                 failed_uploads.add(args[3])
+                pending_uploads.discard(args[3])
                 translate_progress(
                     "wait_descriptor",
                     "Failed upload to {}".format(args[3])
                 )
                 if uploaded.called:
                     pass
-                elif attempted_uploads and attempted_uploads <= failed_uploads:
+                elif attempted_uploads and not pending_uploads and not confirmed_uploads:
                     msg = "Failed to upload '{}' to: {}".format(
                         args[1],
                         ', '.join(failed_uploads),
                     )
                     uploaded.errback(RuntimeError(msg))
-                elif await_all and confirmed_uploads and \
-                        attempted_uploads <= (failed_uploads | confirmed_uploads):
+                elif await_all and confirmed_uploads and not pending_uploads:
                     # the last outstanding upload failed, but others worked
                     uploaded.callback(onion)
 
